@@ -79,6 +79,14 @@ class FakeConn:
 
     def send_record(self, r):
         self.sent.append(r)
+        w = self.world
+        if w is not None and w.send_script:
+            # the transport's buffer fills with this record: it tells its producer (the Outbound) to stop, from inside
+            # send_record() as Twisted does from inside write()
+            if w.send_script.pop(0):
+                w.outbound.pauseProducing()
+
+    world = None
 
 
 class FlowWorld:
@@ -107,6 +115,7 @@ class FlowWorld:
         self.open = set(self.pids)
         self.errors = []
         self.checkpoints = []
+        self.send_script = []      # per re-sent record of the current loop(s): does the buffer fill with it?
 
     def perform(self, a):
         name, arg = a[0], a[1]
@@ -121,8 +130,12 @@ class FlowWorld:
             elif name == "Unregister":
                 ob.subchannel_unregisterProducer(self.sc[arg])
                 self.prod[arg].sig = "none"
+            elif name == "AppRecord":
+                from wormhole._dilation.connection import Data
+                ob.queue_and_send_record(ob.build_record(Data, 1, b"payload"))
             elif name == "UseConnection":
                 self.conn = FakeConn()
+                self.conn.world = self
                 ib.use_connection(self.conn)
                 ob.use_connection(self.conn)
             elif name == "StopUsingConnection":
@@ -156,13 +169,14 @@ class FlowWorld:
                 "sig": {p: self.prod[p].sig for p in self.pids},
                 "ipaused": sorted(scident.get(id(s), "?") for s in self.inbound._paused_subchannels),
                 "cpaused": bool(self.conn.paused) if self.conn else False,
-                "wantPause": sorted(self.want_pause), "open": sorted(self.open)}
+                "wantPause": sorted(self.want_pause), "open": sorted(self.open),
+                "queued": len(ob._outbound_queue), "unsent": len(ob._queued_unsent)}
 
 
 def spec_projection(st):
     return {"paused": st["paused"], "conn": st["conn"], "deque": list(st["deque"]), "pset": sorted(st["pset"]),
             "uset": sorted(st["uset"]), "sig": dict(st["sig"]), "ipaused": sorted(st["ipaused"]), "cpaused": st["cpaused"],
-            "wantPause": sorted(st["wantPause"]), "open": sorted(st["open"])}
+            "wantPause": sorted(st["wantPause"]), "open": sorted(st["open"]), "queued": st["queued"], "unsent": st["unsent"]}
 
 
 def replay_behaviour(tid, states, producers):
@@ -179,7 +193,7 @@ def replay_behaviour(tid, states, producers):
         assert prev_depth == 0
         if st["depth"] == 0:
             # an ordinary action with an empty call stack (a TransportResume that finds nothing to do included)
-            if la[0] not in ("LoopEnd", "LoopStep"):
+            if la[0] not in ("LoopEnd", "LoopStep", "LoopSend"):
                 w.perform(la)
             j = i
         else:
@@ -192,20 +206,27 @@ def replay_behaviour(tid, states, producers):
             seg = [list(s["last"]) for s in states[i + 1:j + 1]]
             schedule += seg
             scripts = []
+            sends = []
             for a in seg:
                 if a[0] == "LoopStep":
                     scripts.append((a[1], []))
+                elif a[0] == "LoopSend":
+                    sends.append(a[1] == "full")
                 elif a[0] in ("LoopEnd", "LoopAssert"):
                     continue
                 elif scripts:
                     scripts[-1][1].append(a)
             w.scripts = scripts
+            w.send_script = sends
             w.perform(la)
             if w.scripts and drift is None:
                 drift = {"step": j, "action": la, "diff": ["turn scripts left unused: %s" % (w.scripts[:2],)]}
             if w.script_mismatch and drift is None:
                 drift = {"step": j, "action": la, "diff": ["producer turn order differs: %s" % (w.script_mismatch[:2],)]}
             w.scripts = []
+            if w.send_script and drift is None:
+                drift = {"step": j, "action": la, "diff": ["re-send script left unused: %s" % (w.send_script,)]}
+            w.send_script = []
         pr, ps = w.projection(), spec_projection(states[j])
         w.checkpoints.append(pr)
         if drift is None and pr != ps:
@@ -320,16 +341,19 @@ def run(prop, tier):
     seed = common.seed()
     v = common.Verdict(prop, tier)
     cov = {"tlc_configs": {}, "samples": [], "drift": []}
-    INV = ["ThreeSets", "AllPausedWhenPaused", "NoConnMeansPaused", "AllResumedAfterDrain", "NoInternal", "InboundExact", "InboundCarried"]
+    INV = ["ThreeSets", "AllPausedWhenPaused", "NoConnMeansPaused", "AllResumedAfterDrain", "NoInternal", "InboundExact", "InboundCarried",
+           "UnsentSane"]
     PROPS = ["NoResumeWhilePaused", "RotationFair"]
     records, meta = [], {}
     states = transitions = 0
     ndrift = 0
     tid = 0
     with common.Workdir(prop) as wd:
-        cfgs = {"two": (dict(Producers={"p1", "p2"}, MaxSteps=4), PROPS + ["LoopTerminates"])}
+        cfgs = {"two": (dict(Producers={"p1", "p2"}, MaxSteps=4, MaxQueued=0), PROPS + ["LoopTerminates"]),
+                "two_resend": (dict(Producers={"p1", "p2"}, MaxSteps=3, MaxQueued=2), PROPS)}
         if not quick:
-            cfgs["three"] = (dict(Producers={"p1", "p2", "p3"}, MaxSteps=3), PROPS)
+            cfgs["three"] = (dict(Producers={"p1", "p2", "p3"}, MaxSteps=3, MaxQueued=0), PROPS)
+            cfgs["two_resend3"] = (dict(Producers={"p1", "p2"}, MaxSteps=4, MaxQueued=3), PROPS)
         for name, (consts, props) in cfgs.items():
             m = "MC_C15_" + name
             common.write_model(wd, m, "DilationFlow", consts, invariants=INV, properties=props)
@@ -343,7 +367,7 @@ def run(prop, tier):
                 behaviours.append(("tlc-cex", r.trace, consts["Producers"]))
             elif not r.ok:
                 raise RuntimeError("TLC failed on %s: %s" % (m, r.error or r.stdout[-1500:]))
-        for name, consts in (("g2", dict(Producers={"p1", "p2"}, MaxSteps=6)), ("g3", dict(Producers={"p1", "p2", "p3"}, MaxSteps=6))):
+        for name, consts in (("g2", dict(Producers={"p1", "p2"}, MaxSteps=6, MaxQueued=3)), ("g3", dict(Producers={"p1", "p2", "p3"}, MaxSteps=6, MaxQueued=2))):
             g = "MC_C15_" + name
             common.write_model(wd, g, "DilationFlow", consts)
             simdir = wd.file("sim_" + name)
@@ -366,8 +390,13 @@ def run(prop, tier):
             "paused_subchannel_closed_connected": 'last[1] = "SubClosed" /\\ iconn /\\ ~cpaused /\\ wantPause = {} /\\ open # Producers',
             "two_want_pause_one_resumes": 'last[1] = "SubResume" /\\ iconn /\\ cpaused',
             "register_while_paused_connected": 'last[1] = "Register" /\\ conn /\\ paused /\\ depth = 0',
+            # the re-send of kept records is stopped by a full buffer while producers are waiting
+            "resend_throttled_with_producers": 'last[1] = "LoopSend" /\\ last[2] = "full" /\\ unsent >= 1 /\\ Cardinality(pset) >= 1',
+            "resend_done_then_wake": 'last[1] = "LoopStep" /\\ queued >= 2 /\\ unsent = 0',
+            "lost_while_resend_throttled": 'last[1] = "StopUsingConnection" /\\ queued >= 2 /\\ Cardinality(pset) >= 1',
+            "record_inside_turn_behind_waiting": 'last[1] = "AppRecord" /\\ last[2] # "-"',
         }
-        for name, consts in (("g2", dict(Producers={"p1", "p2"}, MaxSteps=5)), ("g3", dict(Producers={"p1", "p2", "p3"}, MaxSteps=4))):
+        for name, consts in (("g2", dict(Producers={"p1", "p2"}, MaxSteps=5, MaxQueued=3)), ("g3", dict(Producers={"p1", "p2", "p3"}, MaxSteps=4, MaxQueued=0))):
             wit, unreached = common.witnesses(wd, "DilationFlow", consts, goals, "MC_C15_goal_" + name)
             cov.setdefault("witness_goals", {})[name] = {"reached": [g_ for g_, _ in wit], "unreached": unreached}
             for g_, tr in wit:
